@@ -1,5 +1,10 @@
 package main
 
+import (
+	"fmt"
+	"strings"
+)
+
 func init() {
 	props["C13"] = func(c *Ctx) {
 		n := 400
@@ -18,7 +23,48 @@ func init() {
 		}
 		c.Sum.Rule = "random histories with a high rate of adversarial provider answers (null, wrong member types, huge numbers, non-JSON, non-string nonce, garbage tokens), " +
 			"malformed requests (no http part, empty host/scheme, hostile cookies and queries) and store faults, each check run under recover(); " +
+			"PLUS a sweep of every Cookie header and every request path over small hostile alphabets (quotes, separators, spaces, NUL, non-UTF-8) up to length 5, each run under recover() against a logged-in session; " +
 			"distinct_nontrivial = distinct projected traces reaching a token exchange or write"
 		runHistories(c, 15, histProfile{N: n, MinLen: 6, MaxLen: 30, FaultRate: 12, AttackRate: 35, Stores: []string{"memory", "redis"}}, nil)
+		cookieAndPathSweep(c)
 	}
+}
+
+// cookieAndPathSweep: every string over a small hostile alphabet as Cookie header and as path; panics are findings
+// (the sweep is judged by the harness itself: there is nothing to compare but "a well-formed verdict came back").
+func cookieAndPathSweep(c *Ctx) {
+	o := cfgVariants[0]
+	o.Store = "memory"
+	w := newWorld(c.Seed, o)
+	defer w.Close()
+	s := newSim(w, newRand(c.Seed, 1515))
+	s.Login("/app", compliant())
+	name := cookieName(o.Prefix)
+	n := 5
+	if c.Thorough() {
+		n = 6
+	}
+	try := func(kind string, r reqSpec) {
+		st := w.Do(r, nil, false)
+		c.Sum.Evaluations++
+		if st.Resp.Class == "panic" || st.Resp.Class == "error" {
+			c.Sum.GoFindings = append(c.Sum.GoFindings, Finding{Signature: "C15/panic-on-" + kind,
+				What: fmt.Sprintf("check crashed or returned an error on a hostile %s: %q -> %s %s", kind, r.Cookie+r.Path, st.Resp.Class, st.Resp.Body),
+				Replay: map[string]any{"kind": kind, "cookie_header": r.Cookie, "path": r.Path, "outcome": st.Resp}})
+		}
+	}
+	for _, wd := range wordsUpto("a=;\" ", n) {
+		try("cookie", reqSpec{Scheme: "https", Host: s.AppHost, Path: "/app", Cookie: wd})
+		try("cookie", reqSpec{Scheme: "https", Host: s.AppHost, Path: "/app", Cookie: name + "=" + wd})
+		try("cookie", reqSpec{Scheme: "https", Host: s.AppHost, Path: "/app", Cookie: wd + name + "=" + s.Jar + wd})
+	}
+	for _, wd := range wordsUpto("/?#%&=", n) {
+		try("path", reqSpec{Scheme: "https", Host: s.AppHost, Path: wd, Cookie: s.cookie(s.Jar)})
+		try("path", reqSpec{Scheme: "https", Host: s.AppHost, Path: s.cbPath + wd, Cookie: s.cookie(s.Jar)})
+	}
+	for _, wd := range []string{"\x00", "\xff", "a\x00b=c", "\r\n", strings.Repeat("a=b;", 2000), strings.Repeat("\"", 3000), strings.Repeat("%", 5000)} {
+		try("cookie", reqSpec{Scheme: "https", Host: s.AppHost, Path: "/app", Cookie: wd})
+		try("path", reqSpec{Scheme: "https", Host: s.AppHost, Path: "/" + wd, Cookie: s.cookie(s.Jar)})
+	}
+	c.Hist("sweep", "cookie+path")
 }
